@@ -307,6 +307,17 @@ func c09All(env *core.Env, c *fmtCase) core.Verdict {
 		}
 		tree[n] = contents[n]
 	}
+	// one canonical file may end inside a block it never closes (the end marker of the last block is optional for
+	// the formatter): the files behind it in the walk start at depth 0 all the same
+	if k := rng.Intn(2 * len(names)); k < len(names) && k != dirtyAt {
+		open := fmtModel("entryone\n##!> assemble\n  inner\n  ##!> cmdline unix\n    deeper\n")
+		contents[names[k]] = open
+		tree[names[k]] = open
+	}
+	// hidden entries sort in front of the assembly files of their directory
+	tree["regex-assembly/.DS_Store"] = "\x00binary"
+	tree["regex-assembly/include/.gitkeep"] = ""
+	tree["regex-assembly/exclude/.exc1.ra.swp"] = "b0VIM"
 	if err := tree.Write(root); err != nil {
 		return core.Incon("cannot write tree: %v", err)
 	}
